@@ -133,8 +133,12 @@ def aioMaxSend (m : Option Nat) : Option Nat :=
 
 /-- asyncio `RawSocketServerProtocol.process_handshake` + `WampRawSocketServerProtocol.supports_serializer`
 + the `HandshakeError → protocol_error → transport.close()` handler of `RawSocketProtocol.data_received`.
-For an unsupported serializer `supports_serializer` calls `self.abort()`, which raises `TransportLost`
-because no session is attached yet: the exception leaves `data_received`, no error reply is written (F12). -/
+For an unsupported serializer `process_handshake` writes the error reply `7F | ERR_SERIALIZER_UNSUPPORTED << 4 | 00 00`
+and raises `HandshakeError` (→ `transport.close()`).
+Legacy (F12, repaired in /repo 77273b88): `supports_serializer` used to call `self.abort()`, which raises
+`TransportLost` because no session is attached yet — the exception left `data_received`, nothing was written,
+nothing closed. The translator reads whether that call is present (`aioServerAbortsOnUnsupported`), so
+re-introducing it makes the model exhibit it again and `rs_refuse_clean` stops checking. -/
 def aioServerHs (supported : List Nat) (exp : Nat) (o1 o2 o3 o4 : UInt8) : HsOut :=
   match aioParseHandshake o1 o2 o3 o4 with
   | (.error _, ms) =>
@@ -146,8 +150,14 @@ def aioServerHs (supported : List Nat) (exp : Nat) (o1 o2 o3 o4 : UInt8) : HsOut
         { accepted := true, ser := ser, maxSend := aioMaxSend ms, written := [UInt8.ofNat WampTransport.aioMagic, r, 0, 0], tclose := .none, exc := none }
       | none =>
         { accepted := false, ser := ser, maxSend := aioMaxSend ms, written := [], tclose := .none, exc := some .valueError }
-    else
+    else if WampTransport.aioServerAbortsOnUnsupported then
       { accepted := false, ser := ser, maxSend := aioMaxSend ms, written := [], tclose := .none, exc := some .transportLost }
+    else
+      match replyOctet WampTransport.aioErrSerUnsupported (0 &&& 0x0F) with
+      | some r =>
+        { accepted := false, ser := ser, maxSend := aioMaxSend ms, written := [UInt8.ofNat WampTransport.aioMagic, r, 0, 0], tclose := .close, exc := none }
+      | none =>
+        { accepted := false, ser := ser, maxSend := aioMaxSend ms, written := [], tclose := .none, exc := some .valueError }
 
 /-- asyncio `RawSocketClientProtocol.process_handshake` -/
 def aioClientHs (mySer : Nat) (o1 o2 o3 o4 : UInt8) : HsOut :=
@@ -409,14 +419,21 @@ deriving DecidableEq, Repr
 def be32enc (n : Nat) : Bytes :=
   [UInt8.ofNat (n / 16777216 % 256), UInt8.ofNat (n / 65536 % 256), UInt8.ofNat (n / 256 % 256), UInt8.ofNat (n % 256)]
 
+/-- exception class named by the generated code (0 `PayloadExceededError`, 1 `ValueError`, else other) -/
+def excOfCode : Nat → Exc
+  | 0 => .payloadExceeded
+  | 1 => .valueError
+  | _ => .other
+
 /-- Twisted `send()`: `if 0 < self._max_len_send < payload_len: raise PayloadExceededError` else
 `sendString` (`struct.pack("!I", len) + data`; `StringTooLongError` from 2^32 on is out of range here).
-asyncio `sendString`: `if l > self.max_length_send: raise ValueError("Data too big")` (F14: the class of
-the error is `ValueError`, not `PayloadExceededError`). `none` = the payload goes out. -/
+asyncio `WampRawSocketMixinGeneral.send()`: `if payload_len > self.max_length_send: raise PayloadExceededError`
+(legacy F14, repaired in /repo 11645fb6: only `sendString` checked and raised `ValueError("Data too big")`; the
+translator reads the class raised on this path into `aioSendOverLimitExc`). `none` = the payload goes out. -/
 def sendGuard (v : Variant) (maxLenSend len : Nat) : Option Exc :=
   match v with
   | .twisted => if 0 < maxLenSend ∧ maxLenSend < len then some .payloadExceeded else none
-  | .asyncio => if len > maxLenSend then some .valueError else none
+  | .asyncio => if len > maxLenSend then some (excOfCode WampTransport.aioSendOverLimitExc) else none
 
 def send (v : Variant) (maxLenSend : Nat) (payload : Bytes) : SendOut :=
   match sendGuard v maxLenSend payload.length with
